@@ -13,16 +13,16 @@ TSAN_ENV = {"TSAN_OPTIONS": "halt_on_error=0:exitcode=0:second_deadlock_stack=1:
 # (profile, cases quick, cases thorough) per flavor; counts are totals split over shards
 PLAN = [
     # profile        quick  thorough
-    ("jobs",         480,   6000),
-    ("procs",        320,   4000),
-    ("cancel",       240,   3000),
-    ("cancelkill",     8,     96),
-    ("cancelcompl",   48,    600),
-    ("faults",       160,   2000),
-    ("release",      240,   3000),
-    ("env",          120,   1200),
-    ("envreserved",   32,    300),
-    ("storm",         96,   1200),
+    ("jobs",         480,   18000),
+    ("procs",        320,   12000),
+    ("cancel",       240,   9000),
+    ("cancelkill",     8,     288),
+    ("cancelcompl",   48,    1800),
+    ("faults",       160,   6000),
+    ("release",      240,   9000),
+    ("env",          120,   3600),
+    ("envreserved",   32,    900),
+    ("storm",         96,   3600),
 ]
 SUM_KEYS = ["cases", "events", "jobs_submitted", "jobs_executed_once", "launches", "real_children", "output_bytes", "output_callbacks",
             "status_Succeeded", "status_Failed", "status_Cancelled", "spawn_error_launches", "spawn_error_failed", "fd_exhaustion_failures",
